@@ -1,23 +1,7 @@
-import NbioVerif.Model.Http
-open Http Scan
-
-def hexVal (c : Char) : Nat :=
-  if c.isDigit then c.toNat - 48 else if c.toNat ≥ 97 then c.toNat - 87 else c.toNat - 55
-
-def unhex (s : String) : List UInt8 :=
-  let rec go : List Char → List UInt8
-    | a :: b :: r => UInt8.ofNat (hexVal a * 16 + hexVal b) :: go r
-    | _ => []
-  go s.toList
-
-def hexDigit (n : Nat) : Char := if n < 10 then Char.ofNat (48 + n) else Char.ofNat (87 + n)
-def hex (b : List UInt8) : String :=
-  String.ofList (b.foldr (fun x acc => hexDigit (x.toNat / 16) :: hexDigit (x.toNat % 16) :: acc) [])
-
-def protoOk (b : List UInt8) : Bool :=
-  let s := String.ofList (b.map (fun x => Char.ofNat x.toNat))
-  s == "HTTP/1.1" || s == "HTTP/1.0" ||
-    (b.length == 8 && b.take 5 == str "HTTP/" && b[6]! == 46 && isNum b[5]! && isNum b[7]!)
+import NbioVerif.DrvCommon
+import NbioVerif.Model.HttpProc
+/-! httpdrv: line-protocol driver of the HTTP parser family (C06, C07, C08); see harness/cmd/hhttp/main.go. -/
+open Http Scan Drv
 
 def showEv : Ev → String
   | .method m => s!"method {hex m}"
@@ -30,12 +14,62 @@ def showEv : Ev → String
   | .trailer k v => s!"trailer {hex k} {hex v}"
   | .complete => "complete"
 
+/-- bytewise lexicographic order (Go's `sort.Strings`) -/
+def bytesLt : List UInt8 → List UInt8 → Bool
+  | [], [] => false
+  | [], _ :: _ => true
+  | _ :: _, [] => false
+  | a :: as, b :: bs => if a < b then true else if b < a then false else bytesLt as bs
+
+def insertSorted (x : Bytes × List Bytes) : List (Bytes × List Bytes) → List (Bytes × List Bytes)
+  | [] => [x]
+  | y :: ys => if bytesLt x.1 y.1 then x :: y :: ys else y :: insertSorted x ys
+
+def sortKeys (h : HMap) : HMap := h.foldl (fun acc x => insertSorted x acc) []
+
+def joinZero : List Bytes → Bytes
+  | [] => []
+  | [v] => v
+  | v :: vs => v ++ [0] ++ joinZero vs
+
+def joinComma : List Bytes → Bytes
+  | [] => []
+  | [v] => v
+  | v :: vs => v ++ [44] ++ joinComma vs
+
+/-- `hdrString` of the harness: sorted keys, values joined by NUL -/
+def hdrString (h : HMap) : String :=
+  String.join ((sortKeys h).map fun (k, vs) => s!"{hex k}:{hex (joinZero vs)},")
+
+def hexNat (n : Nat) : String :=
+  if n == 0 then "0" else
+  let rec go (fuel n : Nat) (acc : List Char) : List Char :=
+    match fuel with
+    | 0 => acc
+    | fuel + 1 => if n == 0 then acc else go fuel (n / 16) (hexDigit (n % 16) :: acc)
+  String.ofList (go 20 n [])
+
+def showDelivered : Delivered → String
+  | .req r =>
+    s!"req\{{hex r.method}|{hex r.target}|{hex r.proto}|{hex r.host}|{hdrString r.header}|cl{r.contentLength}|te{hex (joinComma r.te)}|{r.body.length}:{hexNat (fnv r.body).toNat}|{hdrString r.trailer}|close{r.close}}"
+  | .resp r =>
+    s!"res\{{hex r.proto}|{r.code}|{hex r.status}|{hdrString r.header}|cl{r.contentLength}|{r.body.length}:{hexNat (fnv r.body).toNat}|{hdrString r.trailer}}"
+
 structure DS where
   g : Cfg
   limit : Nat
   p : P
   cache : List UInt8
+  cur : Option Building        -- processor: message under construction
   dead : Bool
+
+/-- run the processor glue over the events of one Parse call -/
+def runProc (s : DS) (evs : List Ev) : Option Building × String :=
+  match procRun s.g.isClient s.cur evs [] with
+  | some (cur, out) => (cur, String.intercalate ";" (out.map showDelivered))
+  | none => (none, "proc-nil-deref")
+
+def hexList (s : String) : List (List UInt8) := (s.splitOn ",").filter (· ≠ "") |>.map unhex
 
 partial def loop (h : IO.FS.Stream) (s : DS) : IO Unit := do
   let line ← h.getLine
@@ -45,29 +79,34 @@ partial def loop (h : IO.FS.Stream) (s : DS) : IO Unit := do
   | ["C", cli, maxb, lim] =>
     let g : Cfg := { isClient := cli == "1", maxBody := maxb.toNat!, urlOk := fun _ => true, protoOk := fun _ => true }
     IO.println "ok"
-    loop h { g, limit := lim.toNat!, p := Http.init g, cache := [], dead := false }
-  | ["D", hx, bu, bp] =>
+    loop h { g, limit := lim.toNat!, p := Http.init g, cache := [], cur := none, dead := false }
+  | "D" :: hx :: rest =>
     if s.dead then IO.println "dead"; loop h s
     else
       let data := unhex hx
-      let badUrls := ((bu.drop 7).toString.splitOn ",").filter (· ≠ "") |>.map unhex
-      let badProtos := ((bp.drop 9).toString.splitOn ",").filter (· ≠ "") |>.map unhex
+      let badUrls := hexList ((field rest "badurl").getD "")
+      let badProtos := hexList ((field rest "badproto").getD "")
+      let okProtos := hexList ((field rest "okproto").getD "")
+      -- the verdict of http.ParseHTTPVersion is an input; the model's own `parseHTTPVersion` must agree with it
+      let protoMismatch := badProtos.any (fun b => (parseHTTPVersion b).isSome) || okProtos.any (fun b => (parseHTTPVersion b).isNone)
       let g : Cfg := { s.g with urlOk := fun u => !badUrls.contains u, protoOk := fun u => !badProtos.contains u }
       if s.cache ≠ [] && s.limit > 0 && s.cache.length + data.length > s.limit then
-        IO.println s!"R err={E.tooLong.code} []"
+        IO.println s!"R err={E.tooLong.code} [] msgs="
         loop h { s with dead := true }
       else
         let r := implParse (machine g) s.p s.cache data []
         let evs := String.intercalate ";" (r.evs.map showEv)
+        let (cur, msgs) := runProc s r.evs
+        let pm := if protoMismatch then " proto-verdict-mismatch" else ""
         match r.fin with
         | .inl (p', cache') =>
-          IO.println s!"R ok cache={cache'.length} [{evs}]"
-          loop h { s with p := p', cache := cache' }
+          IO.println s!"R ok cache={cache'.length} st={p'.st.num} [{evs}] msgs={msgs}{pm}"
+          loop h { s with p := p', cache := cache', cur := cur }
         | .inr e =>
-          IO.println s!"R err={e} [{evs}]"
-          loop h { s with dead := true }
+          IO.println s!"R err={e} [{evs}] msgs={msgs}{pm}"
+          loop h { s with dead := true, cur := cur }
   | _ => IO.println "bad-op"; loop h s
 
 def main : IO Unit := do
   let g : Cfg := { isClient := false, maxBody := 0, urlOk := fun _ => true, protoOk := fun _ => true }
-  loop (← IO.getStdin) { g, limit := 0, p := Http.init g, cache := [], dead := false }
+  loop (← IO.getStdin) { g, limit := 0, p := Http.init g, cache := [], cur := none, dead := false }
